@@ -7,6 +7,12 @@ lib   := [[p,p,p,p,p],fm,fm,fm,[nuc,...]]      p := _ | N | nat
 fm    := [meta,[file,...]]                      meta := [[k,v],...]
 nuc   := [label,meta,meta,meta,slots,slots,slots]   slots := [N|nat,...]
 entry := [M,dens] | [P,dens,N|vec,mult]         mult := [U] | [S,rat] | [V,vec] | [N]
+mergeall lib...  -> [T|F,...] lib        (every merge attempted, rejected ones keep their partial mutations)
+mergeallchi lib...  -> as mergeall, file-wide chi included (fisFlag must be absent / 0 / 1)
+mergeseqA / mergeallA / mergeallchiA: the same over Lib.mergeAtomic (merge with rollback, candidate fix)
+wf lib...           -> T|F per library: Lib.WFB (domain of the merge theorems) and no file-wide chi
+macromult [[entry,T|F],...]              (flag: found in multLib)
+creator ng minDens T|F [[name,dens],...] [[name,[N|vec x9],N|vec,N|mat,N|mat,N|mat],...]
 -/
 
 def optVal? (s : String) : Option (Option Val) :=
@@ -114,6 +120,29 @@ def chiItem? (s : String) : Option (Rat × Vec × Vec × Vec) := do
 
 def orBad (o : Option String) : String := o.getD "bad-op"
 
+def bool? (s : String) : Option Bool := if s = "T" then some true else if s = "F" then some false else none
+
+def entryFlag? (s : String) : Option (Entry × Bool) := do
+  match ← splitTop s with
+  | [e, f] => some (← entry? e, ← bool? f)
+  | _ => none
+
+def densItem? (s : String) : Option (Nat × Rat) := do
+  match ← splitTop s with
+  | [k, d] => some (← parseNat? k, ← parseRat? d)
+  | _ => none
+
+def mnuc? (s : String) : Option (Nat × MNuc) := do
+  match ← splitTop s with
+  | [k, vs, nu, a, b, c] =>
+    some (← parseNat? k, ⟨← parseList? optVec? vs, ← optVec? nu, ← optMat? a, ← optMat? b, ← optMat? c⟩)
+  | _ => none
+
+def showCOut (o : COut) : String :=
+  showList showVec o.basics ++ " " ++ showVec o.nuSigF ++ " " ++ showVec o.total ++ " " ++ showVec o.transport ++ " "
+    ++ showVec o.absorption ++ " " ++ showMat o.el ++ " " ++ showMat o.inel ++ " " ++ showMat o.n2nS ++ " "
+    ++ showMat o.totalScatter ++ " " ++ showVec o.removal
+
 def answer : List String → String
   | "mergeseq" :: libs => orBad do
       let ls ← libs.mapM lib?
@@ -126,6 +155,38 @@ def answer : List String → String
       if !(a.inDomain && b.inDomain) then some "out-of-domain" else
       let r := Lib.merge a b
       some (showBool r.1 ++ " " ++ showLib r.2)
+  | "mergeall" :: libs => orBad do
+      let ls ← libs.mapM lib?
+      if !(ls.all Lib.inDomain) then some "out-of-domain" else
+      let r := mergeAll Lib.empty ls
+      some (showList showBool r.1 ++ " " ++ showLib r.2)
+  | "mergeallchi" :: libs => orBad do
+      let ls ← libs.mapM lib?
+      if !(ls.all Lib.fisDomain) then some "out-of-domain" else
+      let r := mergeAllChi Lib.empty ls
+      some (showList showBool r.1 ++ " " ++ showLib r.2)
+  | "mergeseqA" :: libs => orBad do
+      let ls ← libs.mapM lib?
+      if !(ls.all Lib.inDomain) then some "out-of-domain" else
+      let r := mergeSeqAtomic Lib.empty ls
+      some (toString r.1 ++ " " ++ showBool r.2.1 ++ " " ++ showLib r.2.2)
+  | "mergeallA" :: libs => orBad do
+      let ls ← libs.mapM lib?
+      if !(ls.all Lib.inDomain) then some "out-of-domain" else
+      let r := mergeAllAtomic Lib.empty ls
+      some (showList showBool r.1 ++ " " ++ showLib r.2)
+  | "mergeallchiA" :: libs => orBad do
+      let ls ← libs.mapM lib?
+      if !(ls.all Lib.fisDomain) then some "out-of-domain" else
+      let r := mergeAllAtomic Lib.empty ls
+      some (showList showBool r.1 ++ " " ++ showLib r.2)
+  | "wf" :: libs => orBad do
+      let ls ← libs.mapM lib?
+      some (" ".intercalate (ls.map (fun l => showBool (l.WFB && l.inDomain))))
+  | ["macromult", es] => orBad do some (showMacro (macroXSMult (← parseList? entryFlag? es)))
+  | ["creator", ng, minD, b, items, lib] => orBad do
+      some (showOpt showCOut (creator (← parseNat? ng) (← parseRat? minD) (← bool? b)
+        (← parseList? densItem? items) (← parseList? mnuc? lib)))
   | ["macro", es] => orBad do some (showMacro (macroXS (← entries? es)))
   | ["edep", j, es] => orBad do
       some (showOpt showVec (energyDeposition (← parseRat? j) (← entries? es)))
